@@ -43,3 +43,6 @@ REG.bounded_check("C01.instrumented_execution", ["C01"], "C01.bounded",
                   covers=["NameCheckVisitor (assignment, branching, loops, try/except, narrowing, unpacking, indexing, calls to annotated and generic functions, match)",
                           "stacked_scopes lookups", "implementation impl functions", "patma"],
                   bound="14 programs x 1-4 argument tuples: every evaluated Name/Subscript/Call/BinOp/IfExp/BoolOp/Compare node's runtime value must belong to its inferred type (annotate_code)")
+REG.bounded_check("C10.determinism", ["C10"], "C10.bounded",
+                  covers=["the whole checker on the corpus: union member order, listed names, message text"],
+                  bound="9 source files (format mapping keys, unexpected keywords, or/and narrowing, unused variables, branch unions, protocols, overloads) x PYTHONHASHSEED in {0,1,2,3,7} in fresh subprocesses, and two check orders in one process; module-name tokens normalised")
